@@ -178,6 +178,7 @@ def r142(ctx) -> None:
                  if isinstance(t, ast.Try)]
         ok = False
         narrow_note = False
+        conditional: list = []
         for t in tries:
             for h in t.handlers:
                 # task cancellation (asyncio.CancelledError) is a
@@ -190,15 +191,42 @@ def r142(ctx) -> None:
                     'Exception' in names and 'CancelledError' in names)
                 if 'Exception' in names and not broad:
                     narrow_note = True
-                undo = any(call_name(c) == 'delete'
-                           and txt(c.func.value) == mbx
-                           for s in h.body for c in calls_in(s))
+                undos = [c for s in h.body for c in calls_in(s)
+                         if call_name(c) == 'delete'
+                         and txt(c.func.value) == mbx]
+                undo = bool(undos)
                 reraise = any(isinstance(s, ast.Raise) for s in h.body)
+                # ... and the undo is not subject to a condition other than
+                # "something was stored"
+                for c in undos:
+                    arg = txt(c.args[0]) if c.args else ''
+                    for g in enclosing(f.node, c, (ast.If, ast.While,
+                                                   ast.For, ast.IfExp)):
+                        if not any(x is g for s in h.body
+                                   for x in ast.walk(s)):
+                            continue
+                        t_ = txt(getattr(g, 'test', g)).replace(' ', '')
+                        if isinstance(g, ast.If) and t_ in (
+                                arg, f'len({arg})>0', f'len({arg})>=1',
+                                f'len({arg})!=0', f'{arg}!=[]'):
+                            continue
+                        conditional.append((c, txt(getattr(g, 'test', g))))
                 if broad and undo and reraise:
                     ok = True
             if t.finalbody and any(call_name(c) == 'delete'
                                    for s in t.finalbody for c in calls_in(s)):
                 ok = True
+        if ok and conditional:
+            c, test = conditional[0]
+            R.fail(f, c, 'append_messages: MULTIAPPEND prefix is undone '
+                   'when a later message fails',
+                   f'the undo `{txt(c)}` runs only if `{test}`: the test is '
+                   f'on what has been STORED so far, not on the size of the '
+                   f'command — a MULTIAPPEND that fails in its second '
+                   f'message has stored exactly one, keeps it, and the '
+                   f'command still ends without OK (RFC 3502: all or '
+                   f'nothing)')
+            continue
         R.check(ok, f, loop, 'append_messages: MULTIAPPEND prefix is undone '
                 'when a later message fails',
                 'each iteration stores one message persistently and a later '
